@@ -1,9 +1,13 @@
 """C06: synchronous dynamics applies independent per-element trials each timestep.
 Tie B: whole synchronous runs of ScriptProcess tables with scripted trial values (incl. the boundary r == p)
 against Model/Kernel.v.  D: per step, the expected tranche recomputed from the loci at the start of the step
-and the trial values the oracle served."""
+and the trial values the oracle served.
+Last clause (laws of the shipped models on small networks): harness/c06law.py - the exact one-step law of the
+implementation (every pattern of trial outcomes scripted, weights as Fractions) against the law derived from the
+property text, and for SIR/SEIR the exact absorption law over the reachable states."""
 from vlib.core import Harness
 from harness import kcommon
+from harness import c06law
 
 
 class H(Harness):
@@ -14,10 +18,15 @@ class H(Harness):
     VO_TARGETS = ['Properties/C06.vo', 'Tie/Kernel.vo']
     QUICK_N = 500
     THOROUGH_N = 5000
+    CASE_TIMEOUT = 240         # a law case is thousands of runs of the implementation
+    LAW_STEP = {'quick': 250, 'thorough': 2500}
     RULE = ('random ScriptProcess tables under synchronous dynamics: per-element and fixed-rate events with probabilities from '
             '{0, 1/4, 1/2, 3/4, 1}, trial values scripted as multiples of 1/8 so that r == p occurs, posted events interleaved, handlers that '
-            'mutate loci; non-trivial = at least 2 steps with a non-empty tranche; distinct by (table, seed)')
-    TRUSTED = ['Coq 8.16.1 kernel incl. vm_compute', 'harness/kscript.py, harness/kcommon.py, vlib/oracle.py']
+            'mutate loci; non-trivial = at least 2 steps with a non-empty tranche; distinct by (table, seed).  Laws: SIR, SIS, SIRS, SEIR, '
+            'Opinion on random networks of 2-5 nodes (path, star, complete, cycle, random, triangle with tail), dyadic probabilities incl. 0 and 1, '
+            'random seed sets, start states reached by 0-3 scripted earlier steps, all 2^n outcome patterns of the n <= 10 trials of the step; '
+            'absorption of SIR/SEIR from one or two seeds on fixed 3-4 node networks (thorough: also random ones); non-trivial = a law with at least 2 outcomes')
+    TRUSTED = ['Coq 8.16.1 kernel incl. vm_compute', 'harness/kscript.py, harness/kcommon.py, harness/compart.py, harness/c06law.py, vlib/oracle.py']
     ASSUMPTIONS = ['rng.random() is uniform on [0,1): P(r <= p) = p is not formalised; the binomial/geometric laws are theorems about independent Bernoulli(p) trials']
 
     def gen_cases(self, tier, rnd, n):
@@ -26,15 +35,27 @@ class H(Harness):
             tb = kcommon.gen_table(rnd, 'synchronous', maxacts=2)
             script = {'random': [rnd.randrange(0, 8) / 8.0 for _ in range(400)]}
             out.append({'table': tb, 'dynamics': 'synchronous', 'seed': rnd.randrange(1 << 30), 'script': script, 'prerun': rnd.random() < 0.25})
+        out += c06law.gen_absorb_cases(rnd, tier)
+        out += c06law.gen_step_cases(rnd, self.LAW_STEP.get(tier, 60))
         return out
 
     def execute(self, case):
+        if case.get('law') == 'step':
+            return c06law.execute_step(case)
+        if case.get('law') == 'absorb':
+            return c06law.execute_absorb(case)
         return kcommon.run_case(case)
 
     def to_coq(self, case, obs):
+        if 'law' in case:
+            return None
         return kcommon.to_coq(case, obs)
 
     def direct(self, case, obs):
+        if case.get('law') == 'step':
+            return c06law.direct_step(case, obs)
+        if case.get('law') == 'absorb':
+            return c06law.direct_absorb(case, obs)
         if obs.get('skipped'):
             return []
         if obs['exception']:
@@ -101,9 +122,15 @@ class H(Harness):
     def nontrivial(self, case, obs):
         if obs.get('skipped'):
             return None
+        if 'law' in case:
+            if case['law'] == 'step':
+                return 'law:' + repr(sorted(case.items(), key=str)) if len(obs.get('law') or {}) >= 2 else None
+            return 'law:' + repr(sorted(case.items(), key=str)) if (obs.get('states') or 0) >= 3 else None
         if sum(1 for tr in obs.get('tranches', []) if tr['chosen']) >= 2:
             return str(case['seed'])
         return None
 
     def sample_view(self, case, obs):
+        if 'law' in case:
+            return {'case': case, 'observed': {k: v for k, v in obs.items() if not k.startswith('_') and k not in ('example', 'prefixes')}}
         return {'table': case['table'], 'tranches': (obs.get('tranches') or [])[:2], 'TIME': obs.get('time')}
